@@ -28,6 +28,57 @@ def stmt_of(n):
     return n
 
 
+_STR_METHODS = {"ljust", "rjust", "center", "format", "join", "strip", "lstrip", "rstrip", "upper", "lower", "replace", "zfill", "title",
+                "capitalize", "expandtabs", "format_map", "getvalue"}
+
+
+def _stringy(v):
+    """Expression that builds a string (or a plain flag/number constant): the only values a formatting flag may select."""
+    if isinstance(v, ast.Constant):
+        return isinstance(v.value, (str, bool, int, float, type(None)))
+    if isinstance(v, (ast.JoinedStr, ast.Name, ast.Attribute)):
+        return True
+    if isinstance(v, ast.BinOp) and isinstance(v.op, (ast.Add, ast.Mod, ast.Mult)):
+        return _stringy(v.left) and _stringy(v.right)
+    if isinstance(v, ast.Subscript):
+        return _stringy(v.value)
+    if isinstance(v, ast.IfExp):
+        return _stringy(v.body) and _stringy(v.orelse)
+    if isinstance(v, ast.Call):
+        if isinstance(v.func, ast.Name) and v.func.id in ("str", "repr", "format", "len", "bool", "int"):
+            return True
+        if isinstance(v.func, ast.Attribute) and v.func.attr in _STR_METHODS:
+            return True
+        if isinstance(v.func, ast.Attribute) and v.func.attr.startswith(("get_", "str")):
+            return True  # a formatter of the object (get_pqr_string, get_common_string_rep): classified through its own parameters
+    return False
+
+
+def _returns_string(prog, g, f, v, depth=0):
+    """v is a call that resolves to repository functions all of whose return values are strings being built."""
+    if not isinstance(v, ast.Call) or depth > 3:
+        return False
+    targets, _ = g.resolve(f, v)
+    if not targets:
+        return False
+    for t in targets:
+        rets = [r for r in walk_no_defs(t.node) if isinstance(r, ast.Return) and r.value is not None]
+        if not rets:
+            return False
+        for r in rets:
+            val = r.value
+            if isinstance(val, ast.Name):
+                defs = [s for s in iter_stmts(t.node.body) if isinstance(s, (ast.Assign, ast.AugAssign))
+                        and any(isinstance(x, ast.Name) and x.id == val.id for x in (s.targets if isinstance(s, ast.Assign) else [s.target]))]
+                if not defs or not all((_stringy(d.value) and not isinstance(d.value, (ast.Name, ast.Attribute)))
+                                       or isinstance(d, ast.AugAssign) and _stringy(d.value)
+                                       or _returns_string(prog, g, t, d.value, depth + 1) for d in defs):
+                    return False
+            elif not (_stringy(val) and not isinstance(val, (ast.Name, ast.Attribute))) and not _returns_string(prog, g, t, val, depth + 1):
+                return False
+    return True
+
+
 def format_only_param(prog, g, fkey, pname, depth=0, seen=None):
     """Does parameter `pname` of function fkey influence only string building?  -> (bool, reason)"""
     seen = seen or set()
@@ -76,6 +127,9 @@ def format_only_param(prog, g, fkey, pname, depth=0, seen=None):
                     tg = s.targets[0] if isinstance(s, ast.Assign) else s.target
                     if not isinstance(tg, ast.Name):
                         return False, f"{pname} controls a store to {U(tg)} in {f.qual}"
+                    if not _stringy(s.value) and not _returns_string(prog, g, f, s.value):
+                        return False, (f"{pname} controls the value of {tg.id} = {U(s.value)[:50]} in {f.qual}: not a string being built "
+                                       "(the data handed on - its order or content - depends on a formatting flag)")
                 elif isinstance(s, ast.Expr) and isinstance(s.value, ast.Call):
                     nm = U(s.value.func)
                     if not (nm.startswith("_LOGGER.") or nm.endswith((".append", ".write", ".extend"))):
